@@ -77,6 +77,40 @@ func main() {
 		os.Exit(1)
 	default:
 	}
+	// expressions that do not compile, first seen while other goroutines look up cached ones: the verdict is false and whatever
+	// the helper remembers about failures is written under concurrency
+	var iw sync.WaitGroup
+	for g := 0; g < 16; g++ {
+		iw.Add(1)
+		go func(g int) {
+			defer iw.Done()
+			for k := 0; k < 40; k++ {
+				if g%2 == 0 {
+					expr := fmt.Sprintf("value >>> %d", g*100+k/2)
+					if vh.IsValidCEL(expr, 1, nil) != false {
+						select {
+						case celBad <- expr:
+						default:
+						}
+					}
+				} else {
+					if vh.IsValidCEL("value >= 3", 3+k, nil) != true || vh.IsValidCEL(fmt.Sprintf("value >= %d", k%7), -1, nil) != false {
+						select {
+						case celBad <- "value >= N (next to invalid expressions)":
+						default:
+						}
+					}
+				}
+			}
+		}(g)
+	}
+	iw.Wait()
+	select {
+	case b := <-celBad:
+		fmt.Println("inconsistent IsValidCEL (invalid expressions):", b)
+		os.Exit(1)
+	default:
+	}
 	var wg sync.WaitGroup
 	bad := make(chan string, 64)
 	for g := 0; g < 32; g++ {
